@@ -17,6 +17,8 @@
 
 mod worker;
 pub(crate) use worker::{Cluster, ClusterNeatDebug, use_keyspace_result};
+#[cfg(scylla_verif)]
+pub(crate) use worker::verif as worker_verif;
 
 mod state;
 pub use state::ClusterState;
